@@ -59,6 +59,9 @@ pub struct ConfigSpec {
     pub log_port: Option<u16>,
     #[serde(default, skip_serializing_if = "Option::is_none")]
     pub source_path: Option<String>,
+    /// `server.lock.host`
+    #[serde(default, skip_serializing_if = "Option::is_none")]
+    pub lock_host: Option<String>,
 }
 
 impl ConfigSpec {
@@ -121,7 +124,10 @@ impl ConfigSpec {
                 sm.insert("log".into(), json!({}));
             }
             if let Some(p) = self.lock_port {
-                sm.insert("lock".into(), json!({ "port": p }));
+                match &self.lock_host {
+                    Some(h) => sm.insert("lock".into(), json!({ "port": p, "host": h })),
+                    None => sm.insert("lock".into(), json!({ "port": p })),
+                };
             } else {
                 sm.insert("lock".into(), json!({}));
             }
